@@ -766,6 +766,63 @@ def r35_closure_shapes(text):
     return text, n
 
 
+def r36_chain_collect(text):
+    """iterator chains of `specialize` over the opaque tail iterator T (R11): `X.into_iter().chain(T).collect()` =>
+    `chain_collect(X, T)`; `X.iter().cloned().chain(T).collect()` => `chain_collect_cloned(X, T)`; `X .iter() .map(|(_, P)| P.clone())
+    .chain(T) .collect()` (one segment per line) => `chain_collect_second(X, T)`: external_body helpers of the template whose trusted
+    contract is "the elements of X (resp. their clones / the clones of their second components), followed by the collected tail"."""
+    n = 0
+    for rx, fn in ((r'\b(\w+)\.into_iter\(\)\.chain\((\w+)\)\.collect\(\)', 'chain_collect'),
+                   (r'\b(\w+)\.iter\(\)\.cloned\(\)\.chain\((\w+)\)\.collect\(\)', 'chain_collect_cloned'),
+                   (r'\b(\w+)\s*\.iter\(\)\s*\.map\(\|\(_, (\w+)\)\| \2\.clone\(\)\)\s*\.chain\((\w+)\)\s*\.collect\(\)', 'chain_collect_second')):
+        while True:
+            m = re.search(rx, text)
+            if not m:
+                break
+            n += 1
+            x, t = m.group(1), m.groups()[-1]
+            nl = m.group(0).count('\n')
+            text = text[:m.start()] + f'{fn}({x}, {t})' + '\n' * nl + text[m.end():]
+    return text, n
+
+
+def r37_opt_slice(text):
+    """`X.as_deref().unwrap_or_default()` (X an `&Option<Vec<T>>`) => `opt_slice(X)`: an external_body helper of the template (trusted
+    contract: the vector's elements, or none for `None`)."""
+    n = 0
+    while True:
+        m = re.search(r'\b(\w+)\.as_deref\(\)\.unwrap_or_default\(\)', text)
+        if not m:
+            return text, n
+        n += 1
+        text = text[:m.start()] + f'opt_slice({m.group(1)})' + text[m.end():]
+
+
+def r38_or_pattern_guard(text):
+    """match arm `P1 | P2 if G => { BODY }` (Verus: an arm with both an or-pattern and a guard is not supported) =>
+    `P1 if G => { BODY } P2 if G => { BODY }` (the second copy is put on the closing line of the first, without line breaks)."""
+    n = 0
+    while True:
+        m = re.search(r'(?m)^([ \t]*)([A-Za-z_][\w:]*\([^()|]*\))\s*\n?\s*\| ([A-Za-z_][\w:]*\([^()|]*\))\s*\n?\s*if ([^{}\n]+?) =>\s*\n?\s*\{', text)
+        if not m:
+            return text, n
+        toks = lex(text)
+        ob = next(k for k, t in enumerate(toks) if t.text == '{' and t.end == m.end())
+        cb = match_close(toks, ob)
+        body = text[toks[ob].start:toks[cb].end]
+        if '//' in body:
+            raise Unsupported('R38: comment inside the duplicated arm body')
+        ind, p1, p2, g = m.groups()
+        n += 1
+        head = text[m.start():m.end()]
+        # keep the line structure of the original head for the first arm: replace `| P2` by nothing
+        head1 = re.sub(r'\| ' + re.escape(p2), '', head, count=1)
+        flat = ' '.join(body.split())
+        after = text[toks[cb].end:]
+        after = after[1:] if after.startswith(',') else after
+        text = text[:m.start()] + head1 + text[m.end():toks[cb].end] + f' {p2} if {g.strip()} => {flat}' + after
+
+
 def r10_windows2(text):
     """`for W in X.windows(2) {` => `for w__N in 0..(if X.len() >= 2 { X.len() - 1 } else { 0 }) { let W = [X[w__N], X[w__N + 1]];`
     (Verus has no specification of slice::Windows; for Copy elements W[0], W[1] read the same values)."""
@@ -827,7 +884,7 @@ def r7_param_patterns(text):
     return _apply_edits(text, edits), n
 
 
-RULES = [('R0', r0_visibility_and_stats), ('R1', r1_ref_patterns), ('R7', r7_param_patterns), ('R28', r28_mut_self), ('R8', r8_assert_eq), ('R9', r9_subslice_copy), ('R10', r10_windows2), ('R11', r11_collect), ('R12', r12_subslice_to_subslice), ('R13', r13_copied_take), ('R15', r15_iter_all_eq), ('R16', r16_map_collect_tail), ('R17', r17_match_arm_ref_guard), ('R18', r18_bool_bitand), ('R20', r20_iter_skip), ('R21', r21_let_map_collect), ('R21b', r21b_let_chain_map_collect), ('R29', r29_map_index), ('R22b', r22b_extend_array_iter), ('R33', r33_extend_map_closure), ('R34', r34_extend_array_call), ('R22', r22_vec_extend), ('R23', r23_range_copy), ('R24', r24_opaque_iter), ('R25', r25_iter_sum), ('R26', r26_slice_iters), ('R27', r27_add_assign_ref), ('R30', r30_iter_mut_enumerate_take), ('R0b', r0b_dead_const_block), ('R35', r35_closure_shapes), ('R31', r31_iter_mut_enum_fields), ('R32', r32_iter_mut_plain), ('R16b', r16b_into_iter_map_block_collect),
+RULES = [('R0', r0_visibility_and_stats), ('R1', r1_ref_patterns), ('R7', r7_param_patterns), ('R28', r28_mut_self), ('R8', r8_assert_eq), ('R9', r9_subslice_copy), ('R10', r10_windows2), ('R38', r38_or_pattern_guard), ('R36', r36_chain_collect), ('R37', r37_opt_slice), ('R11', r11_collect), ('R12', r12_subslice_to_subslice), ('R13', r13_copied_take), ('R15', r15_iter_all_eq), ('R16', r16_map_collect_tail), ('R17', r17_match_arm_ref_guard), ('R18', r18_bool_bitand), ('R20', r20_iter_skip), ('R21', r21_let_map_collect), ('R21b', r21b_let_chain_map_collect), ('R29', r29_map_index), ('R22b', r22b_extend_array_iter), ('R33', r33_extend_map_closure), ('R34', r34_extend_array_call), ('R22', r22_vec_extend), ('R23', r23_range_copy), ('R24', r24_opaque_iter), ('R25', r25_iter_sum), ('R26', r26_slice_iters), ('R27', r27_add_assign_ref), ('R30', r30_iter_mut_enumerate_take), ('R0b', r0b_dead_const_block), ('R35', r35_closure_shapes), ('R31', r31_iter_mut_enum_fields), ('R32', r32_iter_mut_plain), ('R16b', r16b_into_iter_map_block_collect),
          ('R2', r2_array_literal_loops), ('R3', r3_zip_enumerate)]
 
 
